@@ -41,6 +41,12 @@ type DnsCache struct {
 	Deadline         time.Time
 	OriginalDeadline time.Time // This field is not impacted by `fixed_domain_ttl`.
 
+	// routeLive reports whether this entry is still the one stored under its cache
+	// key. Set when the entry is published; the domain routing tracker consults it
+	// under its own lock so that a late update of a replaced or evicted entry cannot
+	// overwrite (or resurrect) what the cache no longer holds.
+	routeLive func() bool
+
 	// lastRouteSyncNano tracks when route binding was last synced to BPF.
 	lastRouteSyncNano atomic.Int64
 
